@@ -14,7 +14,7 @@ func init() {
 	register(&propDef{
 		id: "C03",
 		li: levelInfo{
-			Level: "other",
+			Level:       "other",
 			Explanation: "Static necessary conditions of single-server equivalence on a stable cluster. R1 (routing-key agreement): at every call of MakeRequest(key, req) the key is Array[p].Text of the body of the very request that is passed, with p the key position of that handler kind (1 for simple, sum-result and split children, 3 for EVAL); every name routed by a generic handler has first-key position 1 in the Redis <= 5.0 reference. R2: split/assemble agreement (shared with C01.R3). R3 (who-may-write): the only functions that write into an existing RESP value (its fields, its array elements or the bytes of its text) are the compression filter and the SCAN cursor rewrite - nothing else can alter relayed bytes. R4 (routing-table fill): CLUSTER NODES fields are read at positions 0 / 1 / 3 / 8+, only master lines receive slots, replicas are removed from the returned map, slot ranges are expanded inclusively, a refresh rewrites every listed slot with the parsed instance under the range guard and nothing else writes the table. R5: no alias of the read buffer escapes (shared with C10.R2). Reply equivalence for all programs is value-level and is not decided.",
 			Assumptions: []string{"Redis <= 5.0 command table and CLUSTER NODES line format embedded as references"},
 			TrustedBase: []string{"go/ssa", "VTA call graph", "embedded references"},
@@ -177,7 +177,10 @@ func checkC03(c *Ctx) {
 									}
 									f2, _ := loadedField(v)
 									return f2 != nil && f2.Name() == "Text"
-								}) || derives(a, func(v ssa.Value) bool { fl, ok := v.(*ssa.Field); return ok && fl.X.Type().Underlying().(*types.Struct).Field(fl.Field).Name() == "Text" }) {
+								}) || derives(a, func(v ssa.Value) bool {
+									fl, ok := v.(*ssa.Field)
+									return ok && fl.X.Type().Underlying().(*types.Struct).Field(fl.Field).Name() == "Text"
+								}) {
 									what = "bytes of a value's Text (copy into parameter)"
 								}
 							}
